@@ -14,7 +14,8 @@
                                           defines nothing else.
 
   FULL statement (not proved): every `Rev` of kind 1.  Proved (`_partial`): scalar objects written canonically
-  (`SimpleObj`, as for the classic link), no object-stream members, no offset swap / relabelling.  Unrestricted:
+  (`SimpleObj`, as for the classic link: since follow-up C03e values of any shape and direct /Length stream objects, see
+  Props/C03RenderDeep.lean; referenced /Length: Props/C03RenderFwd.lean), no object-stream members, no offset swap / relabelling.  Unrestricted:
   choice streams, paddings, `ofsAtPad`, /Index partition, /Index omitted or written, extra width bytes, rotation
   of the dictionary, storage (unfiltered, FlateDecode, FlateDecode + PNG-Up predictor), free entries, object 0,
   garbage, binary comment.  Size hypotheses: file shorter than 2^32 bytes, generations at most 65535, numbers below
@@ -34,8 +35,9 @@ theorem renderHistory_xrefstream_wf_partial (garbage : Bytes) (binary : Bool) (r
       f.bytes = (renderHistory garbage binary [(r, .auto)]).1 ∧ f.WF subs w0 w1 w2 r.root ∧
       (renderHistory garbage binary [(r, .auto)]).2.2.2 =
         [⟨f.objs.map (fun q => ((q.1.num, q.1.gen), (q.1.val q.2).val)), r.frees.map Prod.fst, r.root⟩] ∧
-      f.objs.map (fun q => ((q.1.num, q.1.gen), (q.1.val q.2).val)) =
-        r.objs.map (fun o : DObj => ((o.num, o.gen), LoaderE2E.valOf o)) ++ [((r.lay.xnum, 0), (f.xs.val f.xofs).val)] :=
+      ((∀ o ∈ r.objs, isVal o = true) → f.objs.map (fun q => ((q.1.num, q.1.gen), (q.1.val q.2).val)) =
+        r.objs.map (fun o : DObj => ((o.num, o.gen), LoaderE2E.valOf o)) ++ [((r.lay.xnum, 0), (f.xs.val f.xofs).val)]) ∧
+      f.objs.map Prod.fst = r.objs.map pieceOf ++ [f.xs.piece] ∧ f.xs.piece.num = r.lay.xnum ∧ f.xs.piece.gen = 0 :=
   render_is_xrefstream garbage binary r hg h hstore hlen
 
 /-- **render_xrefstream_loads_partial**: the loader model on the rendered file: accepted, the revision's root, every
@@ -48,11 +50,12 @@ theorem render_xrefstream_loads_partial (garbage : Bytes) (binary : Bool) (r : R
     ∃ (L : Loaded) (said : Said) (xv : Obj),
       (renderHistory garbage binary [(r, .auto)]).2.2.2 = [said] ∧
       said.root = r.root ∧ said.freed = r.frees.map Prod.fst ∧
-      said.written = r.objs.map (fun o : DObj => ((o.num, o.gen), LoaderE2E.valOf o)) ++ [((r.lay.xnum, 0), xv)] ∧
+      ((∀ o ∈ r.objs, isVal o = true) →
+        said.written = r.objs.map (fun o : DObj => ((o.num, o.gen), LoaderE2E.valOf o)) ++ [((r.lay.xnum, 0), xv)]) ∧
       parseData (renderHistory garbage binary [(r, .auto)]).1 = .ok L ∧ L.root = r.root ∧
       (∀ e ∈ said.written, ObjStm.defsGet e.1 L.defs = some e.2) ∧
       (∀ k, (∀ e ∈ said.written, e.1 ≠ k) → ObjStm.defsGet k L.defs = none) := by
-  obtain ⟨f, subs, w0, w1, w2, hb, hwf, hsaid, hw⟩ := render_is_xrefstream garbage binary r hg h hstore hlen
+  obtain ⟨f, subs, w0, w1, w2, hb, hwf, hsaid, hw, _, _⟩ := render_is_xrefstream garbage binary r hg h hstore hlen
   obtain ⟨L, hp, hr, hdef, hundef⟩ := load_xrefstream f subs w0 w1 w2 r.root hwf
   refine ⟨L, _, _, hsaid, rfl, rfl, hw, by rw [← hb]; exact hp, hr, ?_, ?_⟩
   · intro e he
@@ -63,33 +66,57 @@ theorem render_xrefstream_loads_partial (garbage : Bytes) (binary : Bool) (r : R
     intro q hq
     exact hk _ (List.mem_map_of_mem (f := fun q : Piece × Nat => ((q.1.num, q.1.gen), (q.1.val q.2).val)) hq)
 
-/-- in the terms of the revision: every object the revision writes is bound to its value, the cross-reference stream
+/-- in the terms of the revision: every plain object the revision writes is bound to its value, every stream object to the
+    stream value (entries with /Length as a sorted map, content descriptor holding the data), the cross-reference stream
     object is defined, and nothing else is -/
 theorem render_xrefstream_binds_partial (garbage : Bytes) (binary : Bool) (r : Rev)
     (hg : NoMagic garbage) (h : SimpleRevX r)
     (hstore : XStoreFits r.lay (xesOf r (header binary).length))
     (hlen : (renderHistory garbage binary [(r, .auto)]).1.length < 2 ^ 32) :
     ∃ L : Loaded, parseData (renderHistory garbage binary [(r, .auto)]).1 = .ok L ∧ L.root = r.root ∧
-      (∀ o ∈ r.objs, ∀ v, o.body = .val v v → ObjStm.defsGet (o.num, o.gen) L.defs = some v) ∧
+      (∀ o ∈ r.objs, ∀ c s, o.body = .val c s → ObjStm.defsGet (o.num, o.gen) L.defs = some c) ∧
+      (∀ o ∈ r.objs, ∀ entries data, o.body = .stm entries data → ∃ start,
+        ObjStm.defsGet (o.num, o.gen) L.defs =
+          some (.stream (DocSpec.canonKvs (streamEntries o entries data.length)) ⟨start, data.length, data⟩)) ∧
       (ObjStm.defsGet (r.lay.xnum, 0) L.defs).isSome = true ∧
       (∀ k, (∀ o ∈ r.objs, (o.num, o.gen) ≠ k) → k ≠ (r.lay.xnum, 0) → ObjStm.defsGet k L.defs = none) := by
-  obtain ⟨L, said, xv, _, _, _, hw, hp, hr, hdef, hundef⟩ := render_xrefstream_loads_partial garbage binary r hg h hstore hlen
-  refine ⟨L, hp, hr, ?_, ?_, ?_⟩
-  · intro o ho v hv
-    have := hdef ((o.num, o.gen), LoaderE2E.valOf o) (by
-      rw [hw]
-      exact List.mem_append_left _ (List.mem_map_of_mem (f := fun o : DObj => ((o.num, o.gen), LoaderE2E.valOf o)) ho))
-    simpa [LoaderE2E.valOf, hv] using this
-  · have := hdef ((r.lay.xnum, 0), xv) (by rw [hw]; exact List.mem_append_right _ List.mem_cons_self)
+  obtain ⟨f, subs, w0, w1, w2, hb, hwf, hsaid, _, hp5, hxn⟩ := render_is_xrefstream garbage binary r hg h hstore hlen
+  obtain ⟨L, hp, hr, hdef, hundef⟩ := load_xrefstream f subs w0 w1 w2 r.root hwf
+  have hmem : ∀ q ∈ f.objs, (∃ o ∈ r.objs, q.1 = pieceOf o) ∨ q.1 = f.xs.piece := by
+    intro q hq
+    have : q.1 ∈ f.objs.map Prod.fst := List.mem_map_of_mem hq
+    rw [hp5, List.mem_append] at this
+    rcases this with hm | hm
+    · obtain ⟨o, ho, hoe⟩ := List.mem_map.mp hm
+      exact Or.inl ⟨o, ho, hoe.symm⟩
+    · exact Or.inr (by simpa using hm)
+  have hbind : ∀ o ∈ r.objs, ∃ i, ObjStm.defsGet (o.num, o.gen) L.defs = some ((pieceOf o).val i).val := by
+    intro o ho
+    have : pieceOf o ∈ f.objs.map Prod.fst := by rw [hp5]; exact List.mem_append_left _ (List.mem_map_of_mem ho)
+    obtain ⟨q, hq, hqe⟩ := List.mem_map.mp this
+    have hd := hdef q hq
+    rw [hqe, pieceOf_num o (h.objs o ho), pieceOf_gen o (h.objs o ho)] at hd
+    exact ⟨q.2, hd⟩
+  refine ⟨L, by rw [← hb]; exact hp, hr, ?_, ?_, ?_, ?_⟩
+  · intro o ho c s hv
+    obtain ⟨i, hi⟩ := hbind o ho
+    rw [hi, pieceOf_val o i (by simp [isVal, hv])]
+    simp [LoaderE2E.valOf, hv]
+  · intro o ho entries data hv
+    obtain ⟨i, hi⟩ := hbind o ho
+    obtain ⟨start, hst⟩ := pieceOf_val_stm o i entries data hv
+    exact ⟨start, by rw [hi, hst]⟩
+  · have := hdef _ f.xs_mem
+    rw [hxn.1, hxn.2] at this
     rw [this]; rfl
   · intro k hk hkx
     apply hundef k
-    intro e he
-    rw [hw] at he
-    simp only [List.mem_append, List.mem_map, List.mem_cons, List.mem_nil_iff, or_false] at he
-    rcases he with ⟨o, ho, rfl⟩ | rfl
-    · exact hk o ho
-    · exact fun hh => hkx hh.symm
+    intro q hq
+    rcases hmem q hq with ⟨o, ho, hoe⟩ | hx
+    · rw [hoe, pieceOf_num o (h.objs o ho), pieceOf_gen o (h.objs o ho)]
+      exact hk o ho
+    · rw [hx, hxn.1, hxn.2]
+      exact fun hh => hkx hh.symm
 
 /-! ## non-vacuity: concrete revisions of kind 1 (two scalar objects, one free entry, object 0, garbage) -/
 
@@ -116,8 +143,8 @@ theorem exObjsX_simple : ∀ o ∈ exObjsX, SimpleObj o := by
   intro o ho
   simp only [exObjsX, List.mem_cons, List.mem_nil_iff, or_false] at ho
   rcases ho with rfl | rfl
-  · exact ⟨wsRun_of_ws _ (by decide), by decide, by decide, .int 7, rfl, by simp [wf], trivial⟩
-  · exact ⟨wsRun_of_ws _ (by decide), by decide, by decide, .name [67, 97, 116], rfl, by simp [wf, okKey], trivial⟩
+  · exact SimpleObj.of_scalar (wsRun_of_ws _ (by decide)) (by decide) (by decide) (.int 7) rfl (by simp [wf]) trivial
+  · exact SimpleObj.of_scalar (wsRun_of_ws _ (by decide)) (by decide) (by decide) (.name [67, 97, 116]) rfl (by simp [wf, okKey]) trivial
 
 theorem exRevX_simple : SimpleRevX exRevX where
   kind := rfl
@@ -152,31 +179,31 @@ theorem exGarbageX_noMagic : NoMagic [106, 117, 110, 107, 10] := noMagic_of_no_p
 example : ∃ L : Loaded, parseData (renderHistory [106, 117, 110, 107, 10] false [(exRevX, .auto)]).1 = .ok L ∧ L.root = (2, 0) ∧
     ObjStm.defsGet (1, 0) L.defs = some (.int 7) ∧ ObjStm.defsGet (2, 0) L.defs = some (.name [67, 97, 116]) ∧
     (ObjStm.defsGet (4, 0) L.defs).isSome = true ∧ ObjStm.defsGet (3, 1) L.defs = none := by
-  obtain ⟨L, hp, hr, hdef, hx, hundef⟩ := render_xrefstream_binds_partial [106, 117, 110, 107, 10] false exRevX exGarbageX_noMagic
+  obtain ⟨L, hp, hr, hdef, _, hx, hundef⟩ := render_xrefstream_binds_partial [106, 117, 110, 107, 10] false exRevX exGarbageX_noMagic
     exRevX_simple (fun hfl => by cases hfl) (by decide +kernel)
   refine ⟨L, hp, hr, ?_, ?_, hx, ?_⟩
-  · exact hdef _ List.mem_cons_self (.int 7) rfl
-  · exact hdef _ (List.mem_cons_of_mem _ List.mem_cons_self) (.name [67, 97, 116]) rfl
+  · exact hdef _ List.mem_cons_self (.int 7) (.int 7) rfl
+  · exact hdef _ (List.mem_cons_of_mem _ List.mem_cons_self) (.name [67, 97, 116]) (.name [67, 97, 116]) rfl
   · apply hundef <;> decide
 
 /-- the same revision FlateDecode'd with the PNG-Up predictor and an explicit /Index -/
 example : ∃ L : Loaded, parseData (renderHistory [106, 117, 110, 107, 10] true [(exRevXUp, .auto)]).1 = .ok L ∧ L.root = (2, 0) ∧
     ObjStm.defsGet (1, 0) L.defs = some (.int 7) ∧ ObjStm.defsGet (2, 0) L.defs = some (.name [67, 97, 116]) ∧
     ObjStm.defsGet (3, 1) L.defs = none := by
-  obtain ⟨L, hp, hr, hdef, hx, hundef⟩ := render_xrefstream_binds_partial [106, 117, 110, 107, 10] true exRevXUp exGarbageX_noMagic
+  obtain ⟨L, hp, hr, hdef, _, hx, hundef⟩ := render_xrefstream_binds_partial [106, 117, 110, 107, 10] true exRevXUp exGarbageX_noMagic
     exRevXUp_simple (fun _ => by
       show (if true then _ else _)
       rw [if_pos rfl]
       decide +kernel) (by decide +kernel)
   refine ⟨L, hp, hr, ?_, ?_, ?_⟩
-  · exact hdef _ List.mem_cons_self (.int 7) rfl
-  · exact hdef _ (List.mem_cons_of_mem _ List.mem_cons_self) (.name [67, 97, 116]) rfl
+  · exact hdef _ List.mem_cons_self (.int 7) (.int 7) rfl
+  · exact hdef _ (List.mem_cons_of_mem _ List.mem_cons_self) (.name [67, 97, 116]) (.name [67, 97, 116]) rfl
   · apply hundef <;> decide
 
 /-- the hypotheses of the link are satisfiable: the rendered example is a well-formed `XrefStreamFile` with 3 objects -/
 example : ∃ (f : XrefStreamFile) (subs : List (Nat × List SEnt)) (w0 w1 w2 : Nat),
     f.bytes = (renderHistory [106, 117, 110, 107, 10] false [(exRevX, .auto)]).1 ∧ f.WF subs w0 w1 w2 (2, 0) ∧ f.objs.length = 3 := by
-  obtain ⟨f, subs, w0, w1, w2, hb, hwf, _, hw⟩ := renderHistory_xrefstream_wf_partial [106, 117, 110, 107, 10] false exRevX
+  obtain ⟨f, subs, w0, w1, w2, hb, hwf, _, _, hw, _⟩ := renderHistory_xrefstream_wf_partial [106, 117, 110, 107, 10] false exRevX
     exGarbageX_noMagic exRevX_simple (fun hfl => by cases hfl) (by decide +kernel)
   refine ⟨f, subs, w0, w1, w2, hb, hwf, ?_⟩
   have := congrArg List.length hw
